@@ -6,6 +6,7 @@ LEVEL = "exploration"
 N_QUICK, N_THOROUGH = 6400, 400000
 T_QUICK, T_THOROUGH = 60, 1200
 FLOORS = {"histories": 1000, "growths": 200, "frees": 5000, "stamp_checks": 20000}
+FLOORS["impossible_requests_refused"] = 200
 FLOORS_THOROUGH = {"suite:runs": 1, "suite:allocs": 300}
 RULE = ("random walks over {allocate(size, aligned|packed), free(live), grow(n)} x capacity x alignment x "
         "grow_step x both CPU buffer kinds, plus exhaustive small-scope histories (capacity<=16, 4 sizes, "
